@@ -46,6 +46,9 @@ type parser struct {
 	// collected lines
 	lines []sourceLine
 
+	// comment lines found between a label and the line it belongs to
+	gapComments []sourceLine
+
 	// maps of symbol definitions and references used to verify that each
 	// symbol is defined exactly once and each reference is defined.
 	symbols    map[string]int
@@ -181,15 +184,7 @@ func parseLine(p *parser) parseStateFn {
 		p.currentLine.typ = lineEmpty
 		return parseEmptyLines
 	case tokComment:
-		if strings.HasPrefix(p.nextToken.val, ";name") {
-			p.metadata.Name = strings.TrimSpace(p.nextToken.val[5:])
-		} else if strings.HasPrefix(p.nextToken.val, ";author") {
-			p.metadata.Author = strings.TrimSpace(p.nextToken.val[7:])
-		} else if strings.HasPrefix(p.nextToken.val, ";strategy") {
-			if len(p.nextToken.val) > 10 {
-				p.metadata.Strategy += p.nextToken.val[10:] + "\n"
-			}
-		}
+		p.readMetadata(p.nextToken.val)
 		p.currentLine.typ = lineComment
 		return parseComment
 	case tokText:
@@ -200,6 +195,30 @@ func parseLine(p *parser) parseStateFn {
 		p.err = fmt.Errorf("line %d: unexpected token: '%s' type %d", p.line, p.nextToken, p.nextToken.typ)
 		return nil
 	}
+}
+
+// readMetadata captures the ;name, ;author and ;strategy comment lines
+func (p *parser) readMetadata(comment string) {
+	if strings.HasPrefix(comment, ";name") {
+		p.metadata.Name = strings.TrimSpace(comment[5:])
+	} else if strings.HasPrefix(comment, ";author") {
+		p.metadata.Author = strings.TrimSpace(comment[7:])
+	} else if strings.HasPrefix(comment, ";strategy") {
+		if len(comment) > 10 {
+			p.metadata.Strategy += comment[10:] + "\n"
+		}
+	}
+}
+
+// skipLabelGap consumes a newline or a comment line that stands between a
+// label and the line it belongs to. Such a comment is not part of the line
+// list, but it may be metadata or an ;assert: it is kept in gapComments.
+func (p *parser) skipLabelGap() {
+	if p.nextToken.typ == tokComment {
+		p.readMetadata(p.nextToken.val)
+		p.gapComments = append(p.gapComments, sourceLine{line: p.line, typ: lineComment, comment: p.nextToken.val})
+	}
+	p.next()
 }
 
 // parseNewlines consumes newlines and then returns:
@@ -228,9 +247,9 @@ func parseComment(p *parser) parseStateFn {
 // newline / comments: consume
 // anyting else: nil
 func parseLabels(p *parser) parseStateFn {
-	// just consume newlines and comments for now
+	// newlines and comment lines may stand between a label and its line
 	if p.nextToken.typ == tokNewline || p.nextToken.typ == tokComment {
-		p.next()
+		p.skipLabelGap()
 		return parseLabels
 	}
 
@@ -272,9 +291,9 @@ func parseColon(p *parser) parseStateFn {
 		p.next()
 	}
 
-	// just consume newlines and comments for now
+	// newlines and comment lines may stand between a label and its line
 	if p.nextToken.typ == tokNewline || p.nextToken.typ == tokComment {
-		p.next()
+		p.skipLabelGap()
 		return parseColon
 	}
 
